@@ -385,6 +385,32 @@ func ruleEnv(c *Ctx) {
 					}
 					continue
 				}
+				// element-wise inheritance: the appended value is the variable of a
+				// loop that ranges over the host environment (a filter in between
+				// drops entries, it does not reorder them)
+				if len(call.Args) == 2 {
+					if rv, isV := identObj(info, call.Args[1]).(*types.Var); isV && !rv.IsField() {
+						var hostX ast.Expr
+						ast.Inspect(f.Body, func(x ast.Node) bool {
+							rs, isR := x.(*ast.RangeStmt)
+							if !isR || rs.Value == nil || identObj(info, rs.Value) != types.Object(rv) {
+								return true
+							}
+							rx := ast.Unparen(p.Deref(f, rs.X))
+							if rc, isC := rx.(*ast.CallExpr); isC {
+								if ce := p.FnOf(asFunc(p.Callee(f, rc))); ce != nil && ce.Name == "hostEnv" || p.CalleeName(f, rc) == "os.Environ" {
+									hostX = rx
+								}
+							}
+							return true
+						})
+						if hostX != nil {
+							hostNode, hostExpr = n, hostX
+							hostIntoSlice = toEnvSlice && !toCmdEnv
+							continue
+						}
+					}
+				}
 				addElems(n, call.Args[1:], toEnvSlice)
 			}
 		}
